@@ -146,6 +146,56 @@ func (r *resolver) module(y *Module) error {
 		}
 	}
 
+	// children were indexed by name while the members of choices still were what the text said:
+	// if-feature, uses, augments and deviations have since removed and added some
+	return reindexByName(y, make(map[Meta]bool))
+}
+
+// reindexByName rebuilds, everywhere below m, the index Definition(ident) answers from
+func reindexByName(m Meta, seen map[Meta]bool) error {
+	if seen[m] {
+		// recursive groupings
+		return nil
+	}
+	seen[m] = true
+	if hd, valid := m.(HasDataDefinitions); valid {
+		for _, d := range hd.DataDefinitions() {
+			if err := reindexByName(d, seen); err != nil {
+				return err
+			}
+		}
+	}
+	if c, valid := m.(*Choice); valid {
+		for _, k := range c.Cases() {
+			if err := reindexByName(k, seen); err != nil {
+				return err
+			}
+		}
+	}
+	if ha, valid := m.(HasActions); valid {
+		for _, a := range ha.Actions() {
+			if in := a.Input(); in != nil {
+				if err := reindexByName(in, seen); err != nil {
+					return err
+				}
+			}
+			if out := a.Output(); out != nil {
+				if err := reindexByName(out, seen); err != nil {
+					return err
+				}
+			}
+		}
+	}
+	if hn, valid := m.(HasNotifications); valid {
+		for _, n := range hn.Notifications() {
+			if err := reindexByName(n, seen); err != nil {
+				return err
+			}
+		}
+	}
+	if ix, valid := m.(interface{ reindexDataDefinitions() error }); valid {
+		return ix.reindexDataDefinitions()
+	}
 	return nil
 }
 
